@@ -18,13 +18,13 @@ PCands == (IF CanRecv(K) THEN {Recv(K)} ELSE {}) \cup (IF CanStep1(K) THEN {Step
 PickAct == IF Coin(3) THEN "Plot" ELSE IF Coin(2) THEN "Mine" ELSE IF Coin(2) THEN "Stop" ELSE IF Coin(2) THEN "Remove" ELSE "Delete"
 GInit == Init /\ hist = <<[a |-> "Init", st |-> K.st]>>
 GNext ==
-  \/ \E i \in W(6) : LET w == RS(Spaces) a == PickAct IN
+  \/ \E i \in W(6) : \E w \in {RS(Spaces)}, a \in {PickAct} :
         ~Blocks(K, w, a) /\ K' = Act(K, w, a) /\ Log([a |-> "Act", w |-> w, act |-> a])
-  \/ \E i \in W(2) : LET f == RS(Flagsets) a == PickAct IN
+  \/ \E i \in W(2) : \E f \in {RS(Flagsets)}, a \in {PickAct} :
         K' = Bulk(K, f, a) /\ Log([a |-> "Bulk", flags |-> f, act |-> a])
   \/ \E i \in W(IF K.run THEN 0 ELSE 6) : ~K.run /\ K' = StartK(K) /\ Log([a |-> "Start"])
   \/ K.run /\ K.plt.pc # "popped" /\ Coin(3) /\ K' = StopK(K) /\ Log([a |-> "StopKeeper"])
   \/ \E i \in W(8) : PCands # {} /\ K' = RS(PCands) /\ Log([a |-> "P"])
-  \/ \E i \in W(4) : CanPlotEnd(K) /\ LET o == RS({"complete", "aborted"}) IN K' = PlotEnd(K, o) /\ Log([a |-> "PlotEnd", out |-> o])
+  \/ \E i \in W(4) : CanPlotEnd(K) /\ \E o \in {RS({"complete", "aborted"})} : K' = PlotEnd(K, o) /\ Log([a |-> "PlotEnd", out |-> o])
 Emit == Len(hist) = GenLen + 1 => PrintT(<<"BEHAVIOUR", ToJson(hist)>>)
 =============================================================================
